@@ -448,6 +448,50 @@ func igcIndexGuards(p *core.Program, r *core.Report, rule string, initLen int64)
 		_, path, ok := fieldLoad(v)
 		return ok && path == "."+name
 	}
+	// extension columns, by role: the integer leaves of parser state that parseI stores (directly, or as the fields
+	// of a small struct value it builds and stores whole), other than the enforced record length itself
+	extLeaves := map[string]ssa.Value{} // leaf path below the receiver -> stored value
+	var extStores []*ssa.Store
+	extStoreOf := map[string]*ssa.Store{}
+	for _, b := range pi.Blocks {
+		for _, in := range b.Instrs {
+			st, ok := in.(*ssa.Store)
+			if !ok {
+				continue
+			}
+			base, path := fieldRoot(st.Addr)
+			if base != ssa.Value(pi.Params[0]) || path == "" || path == ".bRecordLen" {
+				continue
+			}
+			if bt, isB := st.Val.Type().Underlying().(*types.Basic); isB && bt.Info()&types.IsInteger != 0 {
+				extLeaves[path] = st.Val
+				extStoreOf[path] = st
+				extStores = append(extStores, st)
+				continue
+			}
+			// a struct value copied from a local: its fields were stored one by one
+			if _, isS := st.Val.Type().Underlying().(*types.Struct); isS {
+				if ld, isLd := st.Val.(*ssa.UnOp); isLd && ld.Op == token.MUL {
+					if cell, isCell := ld.X.(*ssa.Alloc); isCell {
+						for _, rf := range eng.Referrers(cell) {
+							fa, isFA := rf.(*ssa.FieldAddr)
+							if !isFA {
+								continue
+							}
+							for _, rf2 := range eng.Referrers(fa) {
+								if st2, isSt := rf2.(*ssa.Store); isSt && st2.Addr == ssa.Value(fa) {
+									_, sub := fieldRoot(fa)
+									extLeaves[path+sub] = st2.Val
+									extStoreOf[path+sub] = st
+									extStores = append(extStores, st)
+								}
+							}
+						}
+					}
+				}
+			}
+		}
+	}
 	// --- parseB: guard and sinks
 	{
 		line := pb.Params[1]
@@ -510,10 +554,8 @@ func igcIndexGuards(p *core.Program, r *core.Report, rule string, initLen int64)
 						continue
 					}
 					okField := false
-					for _, f := range []string{"tdsStart", "tdsStop", "ladStart", "ladStop", "lodStart", "lodStop"} {
-						if isFieldLoad(ix, f) {
-							okField = true
-						}
+					if _, path, isLd := fieldLoad(ix); isLd && extLeaves[path] != nil {
+						okField = true
 					}
 					if !okField {
 						bad = fmt.Sprintf("record access at %s uses column %s (operand %d), neither a constant nor an extension column", p.Pos(in.Pos()), ix, i)
@@ -579,35 +621,38 @@ func igcIndexGuards(p *core.Program, r *core.Report, rule string, initLen int64)
 			}
 		}
 		r.Check(bad == "" && nw >= 1, rule, rel+".bRecordLen/monotone", "encoding/igc/decode.go", true, fmt.Sprintf("%d writers: the literal and contiguous extension", nw), bad)
-		// extension columns
+		// extension columns: a leaf that receives the very value the enforced length was raised to is a stop column
 		n := 0
-		for _, b := range pi.Blocks {
-			for _, in := range b.Instrs {
-				st, ok := in.(*ssa.Store)
-				if !ok {
-					continue
-				}
-				_, path := fieldRoot(st.Addr)
-				if !(path == ".ladStop" || path == ".lodStop" || path == ".tdsStop") {
-					continue
-				}
-				n++
-				covered := false
-				for _, b2 := range pi.Blocks {
-					for _, in2 := range b2.Instrs {
-						st2, ok := in2.(*ssa.Store)
-						if !ok {
-							continue
-						}
-						_, p2 := fieldRoot(st2.Addr)
-						if p2 == ".bRecordLen" && st2.Val == st.Val && (b2.Dominates(b) && (b2 != b || eng.InstrIndex(st2) < eng.InstrIndex(st))) {
+		var leaves []string
+		for path := range extLeaves {
+			leaves = append(leaves, path)
+		}
+		sort.Strings(leaves)
+		for _, path := range leaves {
+			val, st := extLeaves[path], extStoreOf[path]
+			raised := false
+			covered := false
+			for _, b2 := range pi.Blocks {
+				for _, in2 := range b2.Instrs {
+					st2, ok := in2.(*ssa.Store)
+					if !ok {
+						continue
+					}
+					_, p2 := fieldRoot(st2.Addr)
+					if p2 == ".bRecordLen" && st2.Val == val {
+						raised = true
+						if b2.Dominates(st.Block()) && (b2 != st.Block() || eng.InstrIndex(st2) < eng.InstrIndex(st)) {
 							covered = true
 						}
 					}
 				}
-				key := fmt.Sprintf("%s.(*parser).parseI/store%s", rel, path)
-				r.Check(covered, rule, key, p.Pos(st.Pos()), true, "the column stored was stored into bRecordLen first", "extension column "+path[1:]+" is stored without the enforced record length having been raised to it first: after a later rejected extension a minimal B record passes the length test and is indexed past its end")
 			}
+			if !raised {
+				continue // a start column (start-1): below the stop column of the same extension
+			}
+			n++
+			key := fmt.Sprintf("%s.(*parser).parseI/store%s", rel, path)
+			r.Check(covered, rule, key, p.Pos(st.Pos()), true, "the column stored was stored into bRecordLen first", "extension column "+path[1:]+" is stored without the enforced record length having been raised to it first: after a later rejected extension a minimal B record passes the length test and is indexed past its end")
 		}
 		if n != 3 {
 			r.Bad(rule, rel+".(*parser).parseI/extension-stores", p.Pos(pi.Pos()), fmt.Sprintf("expected the three extension column stores, found %d", n))
@@ -660,6 +705,12 @@ func igcIndexGuards(p *core.Program, r *core.Report, rule string, initLen int64)
 					c, ok := affine(ix)
 					if !ok {
 						bad = "index " + ix.String() + " at " + p.Pos(in.Pos()) + " is not of the form 7*i+c"
+						continue
+					}
+					// i must be known non-negative: the extension count is parsed from the record and parseDec
+					// accepts a sign, so 7*n+c with the count itself can be below zero
+					if m := ix.(*ssa.BinOp).X.(*ssa.BinOp).Y; !nonNegative(pi, m, in.Block()) {
+						bad = fmt.Sprintf("index %s at %s multiplies %s, which is not known to be non-negative (a loop counter from 0, or a value tested against 0): a signed count such as `I-1` makes the bound negative and the slice expression panics", ix.Name(), p.Pos(in.Pos()), m.Name())
 						continue
 					}
 					if c > maxC {
@@ -1165,4 +1216,67 @@ func headerStatelessRule(p *core.Program, r *core.Report, rule string) {
 		why = bad[0] + ": the field still holds the previous header's value, so whether (and as what) this header is accepted depends on the headers before it"
 	}
 	r.Check(len(bad) == 0, rule, "(*encoding/igc.parser).parseH", p.Pos(fn.Pos()), true, fmt.Sprintf("%s: %d date fields stored, %d reads of them, none before its store", short(fn), len(stored), nreads), why)
+}
+
+// nonNegative: v is a loop counter that starts at a non-negative constant and only grows, or every path to blk has
+// passed a test that excludes v < 0.
+func nonNegative(fn *ssa.Function, v ssa.Value, blk *ssa.BasicBlock) bool {
+	v = eng.StripConv(v)
+	if k, ok := eng.ConstInt(v); ok {
+		return k >= 0
+	}
+	if phi, ok := v.(*ssa.Phi); ok {
+		good := len(phi.Edges) > 0
+		for _, e := range phi.Edges {
+			if k, isK := eng.ConstInt(e); isK {
+				if k < 0 {
+					good = false
+				}
+				continue
+			}
+			add, isAdd := e.(*ssa.BinOp)
+			if !isAdd || add.Op != token.ADD || eng.StripConv(add.X) != ssa.Value(phi) {
+				good = false
+				continue
+			}
+			if k, isK := eng.ConstInt(add.Y); !isK || k <= 0 {
+				good = false
+			}
+		}
+		if good {
+			return true
+		}
+	}
+	for _, e := range mustEdgesTo(fn, blk) {
+		b := fn.Blocks[e[0]]
+		c, ok := eng.EdgeCmp(b, e[1])
+		if !ok {
+			continue
+		}
+		x, y, op := c.X, c.Y, c.Op
+		if k, isK := eng.ConstInt(x); isK {
+			// k op v  ->  v op' k
+			x, y = y, x
+			_ = k
+			switch op {
+			case token.LSS:
+				op = token.GTR
+			case token.LEQ:
+				op = token.GEQ
+			case token.GTR:
+				op = token.LSS
+			case token.GEQ:
+				op = token.LEQ
+			}
+		}
+		k, isK := eng.ConstInt(y)
+		if !isK || eng.StripConv(x) != v {
+			continue
+		}
+		switch {
+		case op == token.GEQ && k >= 0, op == token.GTR && k >= -1, op == token.EQL && k >= 0:
+			return true
+		}
+	}
+	return false
 }
